@@ -370,9 +370,17 @@ def rule_user_inputs(ctx):
         # a private helper that only the allowed functions call is part of them
         callers_ = {f_["name"] for _q, f_ in fns_in_file(INC) if any(True for _ in method_calls(f_["body"], extra_)) or any(c_["k"] == "Call" and c_["func"]["k"] == "Path" and last(c_["func"]["path"]) == extra_ for c_ in walk(f_["body"]))}
         hf = [f_ for _q, f_ in fns_in_file(INC) if f_["name"] == extra_]
-        if hf and hf[0].get("vis") != "pub" and callers_ and callers_ <= allowed_q:
+        # (no caller left: the default view has already read the helper into its callers, which are judged themselves)
+        if hf and hf[0].get("vis") != "pub" and callers_ <= allowed_q:
             allowed_q = allowed_q | {extra_}
-    ctx.check(R, "FileStack/who-queues-files", set(pushers) <= allowed_q and "add_files" in pushers, "functions pushing onto the file stack: %s (a library pushed by add_libraries would be analysed, and reported, as if the user had named it)" % pushers, INC)
+    def queues_inputs():
+        # add_files pushes, directly or through a private helper of its own
+        if "add_files" in pushers:
+            return True
+        af_ = [f_ for _q, f_ in fns_in_file(INC) if f_["name"] == "add_files"]
+        return bool(af_) and any((m_["k"] == "MethodCall" and m_["method"] in pushers) or (m_["k"] == "Call" and m_["func"]["k"] == "Path" and last(m_["func"]["path"]) in pushers) for m_ in walk(af_[0]["body"]))
+
+    ctx.check(R, "FileStack/who-queues-files", set(pushers) <= allowed_q and queues_inputs(), "functions pushing onto the file stack: %s (a library pushed by add_libraries would be analysed, and reported, as if the user had named it)" % pushers, INC)
     ctx.check(R, "FileStack::new/libraries-before-files", 0 <= i_lib < i_files, "add_libraries at statement %d, add_files at %d" % (i_lib, i_files), site(INC, nw))
     iu = find_fn(INC, "is_user_input", "FileStack")
     if iu is not None:
@@ -604,18 +612,53 @@ def rule_library_list(ctx, R="C19.7"):
                 okm, det = False, "the list handed to the runner is extended first: %s" % grown
         ctx.check(R, "main/library-option-reaches-the-runner-unchanged", okm, det, site(MAIN, wl[0]) if wl else None)
     RUNF = "program_analysis/src/analysis_runner.rs"
-    writers = []
-    for q, f in fns_in_file(RUNF):
-        if not f.get("body") or "tests" in q:
-            continue
-        for m_ in walk(f["body"]):
-            if m_["k"] == "MethodCall" and m_["method"] in ("push", "extend", "extend_from_slice", "insert", "append") and render(strip(m_["recv"])).replace(" ", "") == "self.libraries":
-                pv_ = sgrep.params(f)
-                writers.append((f["name"], bool(pv_) and same_as(m_["args"][-1], pv_[0], let_env(f["body"], m_))))
-            if m_["k"] == "Assign" and render(m_["l"]).replace(" ", "") == "self.libraries":
-                pv_ = sgrep.params(f)
-                writers.append((f["name"], bool(pv_) and same_as(m_["r"], pv_[0], let_env(f["body"], m_))))
-    ctx.check(R, "AnalysisRunner/libraries-written-from-the-option-only", [w_ for w_ in writers] == [("with_libraries", True)], "writers of self.libraries: %s" % writers, RUNF)
+    WRITES = ("push", "extend", "extend_from_slice", "insert", "append")
+
+    def callers_of(file_, name):
+        return sorted({f_["name"] for q_, f_ in fns_in_file(file_) if f_.get("body") and "tests" not in q_ and f_["name"] != name and any((m_["k"] == "MethodCall" and m_["method"] == name) or (m_["k"] == "Call" and m_["func"]["k"] == "Path" and last(m_["func"]["path"]) == name) for m_ in walk(f_["body"]))})
+
+    def writes_to(file_, field):
+        """(function, argument-derives-from-a-parameter) for every write to self.<field>, directly or through `let a = &mut self.<field>`"""
+        out = []
+        for q_, f_ in fns_in_file(file_):
+            if not f_.get("body") or "tests" in q_:
+                continue
+            pv_ = sgrep.params(f_)
+            for m_ in walk(f_["body"]):
+                tgt = None
+                if m_["k"] == "MethodCall" and m_["method"] in WRITES:
+                    r_ = strip(m_["recv"])
+                    le_ = let_env(f_["body"], m_)
+                    for _ in range(3):
+                        while r_["k"] in ("Ref", "Paren") or (r_["k"] == "Unary" and r_.get("op") == "*"):
+                            r_ = strip(r_["e"])
+                        if r_["k"] == "Path" and r_["path"] in le_:
+                            r_ = strip(le_[r_["path"]])
+                    tgt, val = render(r_).replace(" ", ""), m_["args"][-1] if m_["args"] else None
+                elif m_["k"] == "Assign":
+                    tgt, val = render(m_["l"]).replace(" ", ""), m_["r"]
+                if tgt == "self." + field and val is not None:
+                    le_ = let_env(f_["body"], m_)
+                    # names that hold (parts of) a parameter: the parameters, loop variables over them, lets computed from them
+                    derived = set(pv_)
+                    for _ in range(3):
+                        for n_ in walk(f_["body"]):
+                            if n_["k"] == "For" and any(x_["k"] == "Path" and x_["path"] in derived for x_ in walk(n_["iter"])):
+                                derived |= {b_["name"] for b_ in walk(n_["pat"]) if b_["k"] == "PIdent"}
+                            if n_["k"] == "Local" and n_.get("init") is not None and any(x_["k"] == "Path" and x_["path"] in derived for x_ in walk(n_["init"])):
+                                derived |= {b_["name"] for b_ in walk(n_["pat"]) if b_["k"] == "PIdent"}
+                            if n_["k"] == "Closure" and False:
+                                pass
+                    names_ = {x_["path"] for x_ in walk(val) if x_["k"] == "Path" and "::" not in x_["path"]}
+                    from_param = bool(names_) and names_ <= derived | {"self"} and not any(x_["k"] == "Field" and render(x_).startswith("self.") for x_ in walk(val))
+                    out.append((f_["name"], bool(from_param)))
+        return out
+
+    writers = writes_to(RUNF, "libraries")
+    okw = bool(writers)
+    for fname_, from_param in writers:
+        okw = okw and from_param and (fname_ == "with_libraries" or callers_of(RUNF, fname_) == ["with_libraries"])
+    ctx.check(R, "AnalysisRunner/libraries-written-from-the-option-only", okw, "writers of self.libraries (function, from its parameter): %s" % writers, RUNF)
     wf = find_fn(RUNF, "with_files")
     if wf is not None:
         pc = [c for c in walk(wf["body"]) if c["k"] == "Call" and render(c["func"]).replace(" ", "").endswith("parse_files")]
@@ -629,8 +672,9 @@ def rule_library_list(ctx, R="C19.7"):
         fsn = [c for c in walk(pf["body"]) if c["k"] == "Call" and render(c["func"]).replace(" ", "").endswith("FileStack::new")]
         okf = len(fsn) == 1 and len(pv_) >= 2 and len(fsn[0]["args"]) >= 2 and same_as(fsn[0]["args"][1], pv_[1], let_env(pf["body"], fsn[0]))
         ctx.check(R, "parse_files/hands-its-libraries-to-the-file-stack", okf, "FileStack::new(.., %s, ..)" % (render(fsn[0]["args"][1])[:60] if fsn and len(fsn[0]["args"]) > 1 else "?"), site(LIB, pf))
-    pushers = sorted({f["name"] for q, f in fns_in_file(INC) if f.get("body") for m_ in walk(f["body"]) if m_["k"] == "MethodCall" and m_["method"] in ("push", "extend", "insert", "append", "extend_from_slice") and render(strip(m_["recv"])).replace(" ", "") == "self.libraries"})
-    ctx.check(R, "FileStack/libraries-filled-by-add_libraries-only", pushers == ["add_libraries"], "functions that add to self.libraries: %s" % pushers, INC)
+    pushers = sorted({fname_ for fname_, _fp in writes_to(INC, "libraries")})
+    okp = bool(pushers) and all(fname_ == "add_libraries" or callers_of(INC, fname_) == ["add_libraries"] for fname_ in pushers)
+    ctx.check(R, "FileStack/libraries-filled-by-add_libraries-only", okp, "functions that add to self.libraries: %s (add_libraries, or a helper only it calls)" % pushers, INC)
 
 
 def run(ctx):
